@@ -215,6 +215,7 @@ inductive ValKind where
   | long    -- long string: `<digits>-` and filler; marshaled length 127, 128, 129, 16383, 16384, 16385 (v % 6)
   | esc     -- string `<digits>-` followed by a fragment that `encoding/json` escapes (or not)
   | np      -- `*uint64` that may be nil: 1 is the typed nil pointer (`null`), anything else points to the number
+  | agg     -- struct with omitempty slice / map / string fields, of which exactly one is set (v % 3), and a number
   deriving Repr, DecidableEq, Inhabited
 
 namespace Codec
@@ -268,6 +269,10 @@ def valBytes (vk : ValKind) (v : Nat) : Bytes :=
   | .ptr => digits v
   | .np => if v = 1 then litNull else digits v
   | .iface => str "{\"X\":[" ++ quote (digits v) ++ str "]}"
+  | .agg =>
+      (if v % 3 = 0 then str "{\"a\":[" ++ digits v ++ [44] ++ digits (v + 1) ++ str "],"
+       else if v % 3 = 1 then str "{\"m\":{" ++ quote (107 :: digits v) ++ [58] ++ digits v ++ str "},"
+       else str "{\"s\":" ++ quote (115 :: digits v) ++ [44]) ++ str "\"n\":" ++ digits v ++ [125]
   | .long =>
       let head := digits v ++ [45]
       let total := [127, 128, 129, 16383, 16384, 16385][v % 6]! - 2
